@@ -220,8 +220,8 @@ def rule_whole_object(ctx: Ctx, rep: Report) -> None:
     for q in ("btclib.bip32.bip32.BIP32KeyData.parse", "btclib.block.block_header.BlockHeader.parse",
               "btclib.ecc.bms.Sig.parse", "btclib.ecc.ssa.Sig.parse"):
         fi = ctx.func(q)
-        ok = any(pol and isinstance(t, ast.Compare) and isinstance(t.ops[0], ast.NotEq) and norm(t.left).startswith("len(")
-                 and "_REQUIRED_LENGTH" in norm(t.comparators[0]) for t, pol, _ in ctx.refusals(fi))
+        from sa.ranges import refusal_constraints as _rc
+        ok = any(c.op == "!=" and str(c.subject).startswith("len(") and "_REQUIRED_LENGTH" in str(c.value_text) for c in _rc(ctx, fi))
         rep.ob("C05.fixed_length", q, ok, fi.where(), "refusal len(buf) != _REQUIRED_LENGTH" if ok else "no fixed-length refusal")
 
 
@@ -353,12 +353,11 @@ def rule_superfluous(ctx: Ctx, rep: Report) -> None:
                 or (norm(t) in loop_vars and pol),
                 "non-zero transaction count")
     # Version.parse: relay octet > 1
-    has_refusal("btclib.p2p.handshake.Version.parse",
-                lambda t, pol: isinstance(t, ast.Compare) and pol and (
-                    (isinstance(t.ops[0], ast.Gt) and norm(t.comparators[0]) == "1") or
-                    (isinstance(t.ops[0], ast.GtE) and norm(t.comparators[0]) == "2") or
-                    isinstance(t.ops[0], ast.NotIn)),
-                "relay flag above 1")
+    from sa.ranges import has_bound as _hb, refusal_constraints as _rc2
+    vp = ctx.func("btclib.p2p.handshake.Version.parse")
+    cvp = _rc2(ctx, vp)
+    okr = _hb(cvp, ">", 1) is not None or any(c.op == "not in" and c.value in (frozenset({0, 1}), frozenset({b"\x00", b"\x01"})) for c in cvp)
+    rep.ob(rule, "btclib.p2p.handshake.Version.parse:relay flag above 1", okr, vp.where(), "a relay octet above 1 is refused" if okr else f"no refusal of a relay octet above 1; refusals: {[c.show() for c in cvp][:8]}")
 
 
 # ---------------------------------------------------------------------------
